@@ -214,7 +214,7 @@ class C17(Prop):
         for L in range(1, 301):
             if L % nworkers != index:
                 continue
-            for shape in range(4):
+            for shape in range(8):
                 case = {"kind": "pathlen", "len": L, "shape": shape}
                 self.last_write(case)
                 try:
@@ -225,6 +225,20 @@ class C17(Prop):
 
     def run_pathlen(self, lib, stats, case):
         L, shape = case["len"], case["shape"]
+        if shape >= 4:
+            # the long key is COMMON to both documents (it is only walked through, never added or removed); keys made of characters
+            # that need escaping are twice as long once escaped
+            key = [b"/" * L, b"~" * L, (b"~/" * L)[:L], (b"ab/~" * L)[:L]][shape - 4]
+            for inner_f, inner_t in ((["O", [[b"d", ["N", 1.0]], [b"x", ["N", 2.0]]]], ["O", [[b"x", ["N", 2.0]]]]),
+                                     (["A", [["N", 1.0], ["N", 2.0]]], ["A", [["N", 1.0]]]),
+                                     (["N", 1.0], ["N", 2.0])):
+                frm, to = ["O", [[key, inner_f], [b"z", ["t"]]]], ["O", [[key, inner_t], [b"z", ["t"]]]]
+                if L % 2:
+                    frm, to = ["O", [[b"p", frm]]], ["O", [[b"p", to]]]
+                self.run_case(lib, {"from": frm, "other": to, "edits": [], "independent": True, "rseed": 1, "quiet": True}, stats)
+            stats.cls("path_length_sweep")
+            stats.enumerated_nontrivial += 3
+            return
         key = (b"k" * L) if shape < 2 else ((b"a/~" * L)[:L])
         inner_from = ["O", [[key, ["N", 1.0]], [b"x", ["N", 2.0]]]]
         inner_to = ["O", [[b"x", ["N", 2.0]]]]
